@@ -11,6 +11,12 @@ import ProfiVerif.Lemmas.StationProgress
 import ProfiVerif.Lemmas.TimedRing2Step
 import ProfiVerif.Lemmas.TimedRingCrash
 import ProfiVerif.Lemmas.TimedRingAgree
+import ProfiVerif.Lemmas.ColdStart
+import ProfiVerif.Lemmas.ColdStartSolo
+import ProfiVerif.Lemmas.ListenLearn
+import ProfiVerif.Lemmas.ListenNet
+import ProfiVerif.Lemmas.ColdStartDuo
+import ProfiVerif.Lemmas.ColdStartReply
 
 namespace PV.C06
 open PV
@@ -682,5 +688,502 @@ example (l : Int) (hq : QInv PV.C01.cfg2 PV.C01.M3 PV.C01.adr3 PV.C01.net3a 2 PV
   holder_crash_claim PV.C01.cfg2 PV.C01.cfg2_ok PV.C01.M3 PV.C01.adr3 2 PV.C01.ns3c l (max 68 (l + 8000)) evsQ PV.C01.net3a hq
     (by show (68 : Int) ≤ max 68 (l + 8000); omega) (by show l + 8000 ≤ max 68 (l + 8000); omega)
     (schedXT_ap 100 90 (by decide) (by decide) 95 68)
+
+/-! ## Ring level (timed): cold start, phase (a1) — the first claim (C02 "the ring forms") -/
+
+/-- The poll at which the first time-out of the silent cold start has run out: that station claims the token. -/
+theorem cold_start_claim_step (n : Net) (lst : Nat → Int) (h : CS0 n lst) (j : Nat) (hj : j < n.stations.length) (now : Int)
+    (hown : n.bus.seen.getD j 0 < now) (st : NetStation) (hst : n.stations[j]? = some st)
+    (hexp : lst j + (st.s.p.tokenLostTimeout : Nat) ≤ now) (hsync : st.s.p.bits 33 < st.s.p.tokenLostTimeout) :
+    ∃ n' c, n.poll j now = (n', [], some (.ok c)) ∧ c.tx = some (selfToken st.s.p.address) ∧
+      c.s.st = .claimToken .secondToken ∧ Inv c.s c.apps ∧ n'.stations = n.stations.set j (upSt st c) := by
+  obtain ⟨st', hst', hL, hls⟩ := h.st j hj
+  rw [hst] at hst'
+  cases hst'
+  obtain ⟨coll, hs⟩ := hL.lis
+  obtain ⟨c, hc, hinv, htx, hcs, -, -, -⟩ := claim_progress { s := st.s, apps := st.apps, rx := [] } now (lst j) hL.inv
+    hL.son rfl rfl hL.stamp (.inl ⟨none, coll, hs⟩) (by show (now - lst j).natAbs ≥ st.s.p.tokenLostTimeout; omega)
+    (by show lst j + (st.s.p.bits 33 : Nat) < now; omega)
+  have hp' : st.s.poll st.apps now (Bus.transmitting { n.bus with seen := n.bus.seen.set j now } j now)
+      (st.rx ++ []) = .ok c := by
+    rw [transmitting_seen, hL.rx, Bus.transmitting_nil _ _ _ h.txs]; exact hc
+  have hpe := Net.poll_eq n j now st _ [] c hst hL.alive hL.online (Bus.deliver_nil n.bus j now h.txs) hp'
+  exact ⟨_, c, hpe, htx, hcs, hinv, rfl⟩
+
+/-- Run of the silent cold start up to the first claim (`L` = the station whose time-out runs out first,
+`T` = that instant, `lim` = latest time of the claim): every poll returns regularly and receives nothing; nobody
+transmits before `L`'s first poll at or after `T`, which happens no later than `lim` and transmits the token
+addressed to `L` itself (`ClaimToken`); all other station records are still untouched. -/
+def FirstClaimRun (L aL : Nat) (T lim : Int) : Net → List (Nat × Int) → Prop
+  | _, [] => True
+  | n, (i, now) :: rest =>
+    ∃ n' c, n.poll i now = (n', [], some (.ok c)) ∧
+      ((c.tx = none ∧ (i = L → now < T) ∧ n'.stations = n.stations ∧ FirstClaimRun L aL T lim n' rest) ∨
+       (i = L ∧ T ≤ now ∧ now ≤ lim ∧ c.tx = some (selfToken aL) ∧ c.s.st = .claimToken .secondToken ∧
+          ∀ j, j ≠ L → n'.stations[j]? = n.stations[j]?))
+
+/-- **Cold start, phase (a1): the first claim** (C02 "the ring forms", first step; any number of stations).
+All stations are online and listen on a bus on which nothing has been transmitted (`CS0`: `ListenToken`, empty
+buffers, stamps `lst j` not later than their last polls).  Station `L` is the one whose token-lost time-out runs
+out first, with a stagger: `T = lst L + Tto_L`, `T + P < lst j + Tto_j` for every other station `j`
+(`claim_staggered`: the time-outs of stations that started counting together differ by at least two slot times
+per address), and `L` was last polled before `T`.  Every station is polled at least every `P` µs.  Then
+(`FirstClaimRun`): every poll returns regularly; nobody transmits before `L`'s first poll at or after `T`, and
+that poll — no later than `T + P` — transmits the self-addressed token and leaves `L` in
+`ClaimToken(SecondToken)`; all other stations are still listening, untouched. -/
+theorem cold_start_first_claim (P : Nat) (lst : Nat → Int) (L : Nat) (stL : NetStation) :
+    ∀ (evs : List (Nat × Int)) (n : Net) (tl : Int), CS0 n lst → n.stations[L]? = some stL →
+    stL.s.p.bits 33 < stL.s.p.tokenLostTimeout →
+    n.bus.seen.getD L 0 < lst L + (stL.s.p.tokenLostTimeout : Nat) →
+    (∀ j st, j ≠ L → n.stations[j]? = some st →
+      lst L + (stL.s.p.tokenLostTimeout : Nat) + (P : Nat) < lst j + (st.s.p.tokenLostTimeout : Nat)) →
+    SchedN P n tl evs →
+    FirstClaimRun L stL.s.p.address (lst L + (stL.s.p.tokenLostTimeout : Nat))
+      (lst L + (stL.s.p.tokenLostTimeout : Nat) + (P : Nat)) n evs := by
+  intro evs
+  induction evs with
+  | nil => intro _ _ _ _ _ _ _ _; trivial
+  | cons ev rest ih =>
+    intro n tl h hL hsync hseenL hstag hs
+    obtain ⟨i, now⟩ := ev
+    obtain ⟨hi, htl, hown, hgap, hrest⟩ := hs
+    have hLl : L < n.stations.length := by
+      rcases Nat.lt_or_ge L n.stations.length with h' | h'
+      · exact h'
+      · rw [List.getElem?_eq_none_iff.2 h'] at hL; cases hL
+    have hgL := hgap L hLl
+    obtain ⟨sti, hsti, hLi, hlsi⟩ := h.st i hi
+    by_cases hiL : i = L
+    · subst hiL
+      rw [hL] at hsti; cases hsti
+      by_cases hw : now < lst i + (stL.s.p.tokenLostTimeout : Nat)
+      · obtain ⟨n', c, hp, htx, h', hsame⟩ := cs0_wait h i hi now hown stL hL hw
+        refine ⟨n', c, hp, .inl ⟨htx, fun _ => hw, hsame, ?_⟩⟩
+        have hn' : (n.poll i now).1 = n' := by rw [hp]
+        rw [hn'] at hrest
+        have hseen' : n'.bus.seen.getD i 0 = now := by
+          have := Net.poll_seenN n i now
+          rw [hp] at this
+          simp only at this
+          rw [this, seen_set_self _ _ _ (by rw [h.seenlen]; exact hi)]
+        exact ih n' now h' (by rw [hsame]; exact hL) hsync (by rw [hseen']; exact hw)
+          (fun j st hj hst => hstag j st hj (by rw [← hsame]; exact hst)) hrest
+      · obtain ⟨n', c, hp, htx, hcs, -, hset⟩ := cold_start_claim_step n lst h i hi now hown stL hL (by omega) hsync
+        refine ⟨n', c, hp, .inr ⟨rfl, by omega, by omega, htx, hcs, ?_⟩⟩
+        intro j hj
+        rw [hset, List.getElem?_set_ne (Ne.symm hj)]
+    · have hw : now < lst i + (sti.s.p.tokenLostTimeout : Nat) := by
+        have := hstag i sti hiL hsti
+        omega
+      obtain ⟨n', c, hp, htx, h', hsame⟩ := cs0_wait h i hi now hown sti hsti hw
+      refine ⟨n', c, hp, .inl ⟨htx, fun e => absurd e hiL, hsame, ?_⟩⟩
+      have hn' : (n.poll i now).1 = n' := by rw [hp]
+      rw [hn'] at hrest
+      have hseen' : n'.bus.seen.getD L 0 = n.bus.seen.getD L 0 := by
+        have := Net.poll_seenN n i now
+        rw [hp] at this
+        simp only at this
+        rw [this, seen_set_other _ _ _ _ hiL]
+      exact ih n' now h' (by rw [hsame]; exact hL) hsync (by rw [hseen']; exact hseenL)
+        (fun j st hj hst => hstag j st hj (by rw [← hsame]; exact hst)) hrest
+
+/-! Non-vacuity of phase (a1): stations 3 and 5 (parameters of the C13 example, `Tslot` = 400 µs) listen since
+their first polls at 0 and 50 µs; token-lost time-outs 4800 µs and 6400 µs; both polled every 100 µs.  Station 3
+claims at its poll at 4800 µs. -/
+open PV.C13 in
+def sL3 : Station := { (Station.new pR3) with online := true, st := .listenToken none 0, lastBusActivity := some 0 }
+open PV.C13 in
+def sL5 : Station := { (Station.new pR5) with online := true, st := .listenToken none 0, lastBusActivity := some 50 }
+def netL : Net :=
+  { bus := { rate := 500000, txs := [], seen := [0, 50] },
+    stations := [{ s := sL3, apps := [], online := true }, { s := sL5, apps := [], online := true }] }
+def lstL (j : Nat) : Int := if j = 0 then 0 else 50
+
+open PV.C13 in
+theorem cs0L : CS0 netL lstL := by
+  refine ⟨rfl, rfl, ?_⟩
+  intro j hj
+  have : j = 0 ∨ j = 1 := by simp only [netL, List.length_cons, List.length_nil] at hj; omega
+  have hinv3 : Inv sL3 [] := by
+    have h := inv_new pR3 [] (by decide) (by decide) (by intro s hs; cases hs)
+    exact ⟨h.addr, h.hsa, h.ring, fun ho => by simp [sL3] at ho, h.gap, fun a ha => by simp [sL3] at ha,
+      fun a ha => by simp [sL3] at ha, h.app, fun a d ha => by simp [sL3] at ha, h.scripts, by simp [sL3]⟩
+  have hinv5 : Inv sL5 [] := by
+    have h := inv_new pR5 [] (by decide) (by decide) (by intro s hs; cases hs)
+    exact ⟨h.addr, h.hsa, h.ring, fun ho => by simp [sL5] at ho, h.gap, fun a ha => by simp [sL5] at ha,
+      fun a ha => by simp [sL5] at ha, h.app, fun a d ha => by simp [sL5] at ha, h.scripts, by simp [sL5]⟩
+  rcases this with rfl | rfl
+  · exact ⟨_, rfl, ⟨rfl, rfl, hinv3, rfl, rfl, ⟨0, rfl⟩, rfl⟩, by decide⟩
+  · exact ⟨_, rfl, ⟨rfl, rfl, hinv5, rfl, rfl, ⟨0, rfl⟩, rfl⟩, by decide⟩
+
+def evsL : List (Nat × Int) := [(0, 100), (1, 150), (0, 200), (1, 250), (0, 300), (1, 350), (0, 400), (1, 450), (0, 500), (1, 550), (0, 600), (1, 650), (0, 700), (1, 750), (0, 800), (1, 850), (0, 900), (1, 950), (0, 1000), (1, 1050), (0, 1100), (1, 1150), (0, 1200), (1, 1250), (0, 1300), (1, 1350), (0, 1400), (1, 1450), (0, 1500), (1, 1550), (0, 1600), (1, 1650), (0, 1700), (1, 1750), (0, 1800), (1, 1850), (0, 1900), (1, 1950), (0, 2000), (1, 2050), (0, 2100), (1, 2150), (0, 2200), (1, 2250), (0, 2300), (1, 2350), (0, 2400), (1, 2450), (0, 2500), (1, 2550), (0, 2600), (1, 2650), (0, 2700), (1, 2750), (0, 2800), (1, 2850), (0, 2900), (1, 2950), (0, 3000), (1, 3050), (0, 3100), (1, 3150), (0, 3200), (1, 3250), (0, 3300), (1, 3350), (0, 3400), (1, 3450), (0, 3500), (1, 3550), (0, 3600), (1, 3650), (0, 3700), (1, 3750), (0, 3800), (1, 3850), (0, 3900), (1, 3950), (0, 4000), (1, 4050), (0, 4100), (1, 4150), (0, 4200), (1, 4250), (0, 4300), (1, 4350), (0, 4400), (1, 4450), (0, 4500), (1, 4550), (0, 4600), (1, 4650), (0, 4700), (1, 4750), (0, 4800), (1, 4850), (0, 4900), (1, 4950)]
+
+example : FirstClaimRun 0 3 4800 4900 netL evsL :=
+  cold_start_first_claim 100 lstL 0 { s := sL3, apps := [], online := true } evsL netL 50 cs0L rfl (by decide) (by decide)
+    (by
+      intro j st hj hst
+      have : j = 1 ∨ 2 ≤ j := by omega
+      rcases this with rfl | h2
+      · cases hst; decide
+      · simp [netL, h2] at hst)
+    (schedN_of_times _ _ _ _ (schedNT_of_b 100 2 evsL [0, 50] 50 (by decide)))
+
+/-! ## Ring level (timed): cold start of a station that is alone — the one-station ring forms -/
+
+/-- The formation budget in the configuration constants: two synchronisation pauses after the first claim token,
+the second token, one sweep step (`P + bits 66 + Tslot`) per address of the GAP (`HSA − 1` addresses), and three
+more polls (end of the sweep, `PassToken`, the token to itself). -/
+theorem formTime_value (cfg : Cfg) (hsa : Nat) :
+    cfg.formTime hsa = 2 * cfg.b33 + (cfg.P + 2 * cfg.b33 + (hsa - 1) * (cfg.P + cfg.b66 + cfg.slot) + 3 * cfg.P) := rfl
+
+/-- One poll of the lone claimant in any stage of the formation (`form_step`). -/
+theorem one_station_ring_step (cfg : Cfg) (hok : cfg.Ok) (n : Net) (x : Nat) (st : NetStation) (l : Int)
+    (h : Solo cfg n x st l) (stage : SStage) (hs : stage.ok st.s)
+    (hv : RingView [st.s.p.address] st.s.p.address st.s.ring) (B : Int) (now : Int)
+    (hown : n.bus.seen.getD x 0 < now) (hP : now ≤ n.bus.seen.getD x 0 + (cfg.P : Nat))
+    (hB : max (n.bus.seen.getD x 0) (l + ((stage.wait cfg : Nat) : Int)) +
+      ((stage.rest cfg st.s.p.address st.s.p.hsa : Nat) : Int) ≤ B) :
+    ∃ n' c, n.poll x now = (n', [], some (.ok c)) ∧ n'.bus.seen.getD x 0 = now ∧
+      now ≤ max (n.bus.seen.getD x 0) (l + ((stage.wait cfg : Nat) : Int)) + (cfg.P : Nat) ∧
+      FormOut cfg x st.s.p.address B st n' c now l
+        (max (n.bus.seen.getD x 0) (l + ((stage.wait cfg : Nat) : Int)) + ((stage.slack cfg : Nat) : Int)) :=
+  form_step h hok stage hs hv B now hown hP hB
+
+/-- **Cold start of a station that is alone on the bus: the one-station ring forms** (C02 "the ring forms" for
+one station; phases (a1)–(a4) of the cold start without a second station).  A station model on the byte-accurate
+bus of `Model/Net.lean`, online in `ListenToken` with stamp `l`, empty buffer, every logged transmission its own
+or completely delivered to it (`Solo`; e.g. nothing transmitted yet), knowing only itself (`RingView [TS]` once its LAS is declared
+valid), polled at increasing times with gaps at most `P` (`2 + 2P + bits 33 + ⌈11 bit⌉ ≤ Tslot`,
+`bits 33 < Tto`), nothing else on the bus.  Then (`LoneRun`, `FormRun`): every poll returns regularly and
+receives nothing; nothing is transmitted before `T = l + Tto`; the first poll at or after `T`, no later than
+`max(last poll, T) + P`, transmits the first claim token; then the second claim token, one status request to
+every other address below HSA — in the order of the GAP sweep, each after the slot time of the previous one has
+run out —, and finally the token to the station itself: at that poll, no later than `formTime` after the first
+claim (`formTime_value`), the station is in `UseToken` and its ring view is that of the one-member ring (LAS =
+{TS}, NS = PS = TS).  Until then it is in `ClaimToken` / `PassToken` and transmits nothing else; all later polls
+return regularly. -/
+theorem one_station_ring_forms (cfg : Cfg) (hok : cfg.Ok) (x : Nat) (st : NetStation) (l : Int) (coll : Nat) (S : Int)
+    (evs : List Int) (n : Net) (h : Solo cfg n x st l) (hst : st.s.st = .listenToken none coll)
+    (hsync : cfg.b33 < st.s.p.tokenLostTimeout)
+    (hv : RingView [st.s.p.address] st.s.p.address st.s.ring.claimToken)
+    (hS : n.bus.seen.getD x 0 ≤ S) (hT : l + (st.s.p.tokenLostTimeout : Nat) ≤ S)
+    (hs : SchedXT cfg.P (n.bus.seen.getD x 0) evs) :
+    LoneRun x st.s.p.address (l + (st.s.p.tokenLostTimeout : Nat)) (S + (cfg.P : Nat)) (cfg.formTime st.s.p.hsa) n evs :=
+  lone_cold_start hok x st l coll S evs n h hst hsync hv hS hT hs
+
+/-! Non-vacuity: station 3 alone (parameters of the C13 example: HSA 10, `Tslot` = 400 µs, `Tto` = 4800 µs), listening
+since 0, polled every 90 µs: first claim at 4860 µs, the ring of one stands no later than 4860 + 6352 µs. -/
+open PV.C13 in
+def netOne : Net := { bus := { rate := 500000, txs := [], seen := [0] }, stations := [{ s := sL3, apps := [], online := true }] }
+
+open PV.C13 in
+theorem soloOne : Solo cfgR netOne 0 { s := sL3, apps := [], online := true } 0 := by
+  have hinv3 : Inv sL3 [] := by
+    have h := inv_new pR3 [] (by decide) (by decide) (by intro s hs; cases hs)
+    exact ⟨h.addr, h.hsa, h.ring, fun ho => by simp [sL3] at ho, h.gap, fun a ha => by simp [sL3] at ha,
+      fun a ha => by simp [sL3] at ha, h.app, fun a d ha => by simp [sL3] at ha, h.scripts, by simp [sL3]⟩
+  exact ⟨rfl, rfl, rfl, List.Pairwise.nil, (fun o ho => by cases ho), (fun o ho => by cases ho), (fun o ho => by cases ho),
+    (fun o ho => by cases ho), by decide, by decide, rfl, rfl, rfl, hinv3, rfl, rfl, rfl, rfl, rfl⟩
+
+theorem viewOne : RingView [3] 3 (TokenRing.new 3).claimToken := by
+  refine ⟨⟨by simp, trivial, by decide⟩, by simp, rfl, rfl, ?_, TokenRing.new_nbr 3⟩
+  intro a ha
+  unfold TokenRing.claimToken TokenRing.new TokenRing.isActive
+  simp [ha]
+
+open PV.C13 in
+example : LoneRun 0 3 4800 4900 (cfgR.formTime 10) netOne (apList 90 0 140) :=
+  one_station_ring_forms cfgR cfgR_ok 0 { s := sL3, apps := [], online := true } 0 0 4800 (apList 90 0 140) netOne soloOne rfl
+    (by decide) viewOne (by decide) (by decide) (schedXT_ap 100 90 (by decide) (by decide) 140 0)
+
+open PV.C13 in
+example : cfgR.formTime 10 = 6352 := by decide
+
+/-! ## Cold start / late joiner, phase (b) at station level: the listener learns the ring of the lone holder -/
+
+/-- Three or more witnessed passes `aL → aL` give a fresh station a valid LAS that is exactly `{aL}`. -/
+theorem witnessK_ready (aL me : Nat) (haL : aL ≤ 125) : ∀ k, 3 ≤ k →
+    (witnessK aL k (TokenRing.new me)).las = .valid ∧ TokenRing.LasIs (witnessK aL k (TokenRing.new me)) [aL] := by
+  have hring : C02.Ring [aL] := ⟨by simp, trivial, by intro z hz; simp only [List.mem_singleton] at hz; omega⟩
+  have h3 := C02.las_learns me [aL] hring aL aL haL haL (Nat.le_refl _)
+  have key : ∀ j, (witnessK aL j (witnessK aL 3 (TokenRing.new me))).las = .valid ∧
+      TokenRing.LasIs (witnessK aL j (witnessK aL 3 (TokenRing.new me))) [aL] := by
+    intro j
+    have gen : ∀ (j : Nat) (r : TokenRing), r.las = .valid → TokenRing.LasIs r [aL] →
+        (witnessK aL j r).las = .valid ∧ TokenRing.LasIs (witnessK aL j r) [aL] := by
+      intro j
+      induction j with
+      | zero => intro r h1 h2; exact ⟨h1, h2⟩
+      | succ j ih =>
+        intro r h1 h2
+        unfold witnessK
+        apply ih
+        · rw [TokenRing.witness_valid r aL aL h1 haL haL]; exact (TokenRing.updateLas_las r _ _).1.trans h1
+        · rw [TokenRing.witness_valid r aL aL h1 haL haL]
+          have := TokenRing.updateLas_succ_stable r [aL] aL h2 (by simp)
+          rw [cycSucc_single] at this
+          exact this
+    exact gen j _ h3.1 h3.2
+  have hadd : ∀ (a b : Nat) (r : TokenRing), witnessK aL (a + b) r = witnessK aL b (witnessK aL a r) := by
+    intro a
+    induction a with
+    | zero => intro b r; simp [witnessK]
+    | succ a ih =>
+      intro b r
+      rw [Nat.succ_add]
+      show witnessK aL (a + b) (r.witness aL aL) = witnessK aL b (witnessK aL a (r.witness aL aL))
+      exact ih b _
+  intro k hk
+  have : k = 3 + (k - 3) := by omega
+  rw [this, hadd]
+  exact key (k - 3)
+
+/-- **Phase (b): LAS learning of a listener under arbitrary chunking** (station level).  A freshly started station
+(`TokenRing.new`, `ListenToken`, empty buffer) overhears the traffic of a lone token holder `aL` — self-addressed
+tokens and GAP requests to addresses other than its own — delivered in arbitrary chunks at arbitrary poll times,
+never `Tto` after the last poll that brought new bytes (`FeedOk`).  Every poll returns regularly and transmits
+nothing; at the end the station is still in `ListenToken` with an empty buffer, and if the stream contained at
+least three tokens its LAS is valid and equals `{aL}`: it is ready for the ring, so that it answers the next GAP
+request addressed to it with "ready" (`PV.C12.listen_reply`). -/
+theorem listener_learns_lone_ring (apps : Apps) (aL coll : Nat) (haL : aL ≤ 125) (ins : List (Int × Bytes)) (s : Station)
+    (rem : List Telegram) (l tp : Int) (hon : s.online = true) (hst : s.st = .listenToken none coll)
+    (hl : s.lastBusActivity = some l) (hltp : l ≤ tp) (hpb : s.pendingBytes = 0) (hne : aL ≠ s.p.address)
+    (hto : 0 < s.p.tokenLostTimeout) (hring : s.ring = TokenRing.new s.p.address)
+    (hstream : (ins.map Prod.snd).flatten = streamOf rem) (hlone : ∀ t ∈ rem, LoneTel aL s.p.address t)
+    (h3 : 3 ≤ countTok rem) (hfeed : FeedOk s.p.tokenLostTimeout l tp ins) :
+    ∃ s', listenRun apps s [] ins = some (s', []) ∧ s'.st = .listenToken none coll ∧ s'.online = true ∧ s'.p = s.p ∧
+      s'.ring = hearAll aL rem s.ring ∧ s'.ring.readyForRing = true ∧ TokenRing.LasIs s'.ring [aL] := by
+  obtain ⟨s', hrun, a1, a2, a3, a4⟩ := listen_learns apps aL coll (by omega) ins s [] rem l l tp hon hst hl (Int.le_refl _) hltp
+    (by rw [hpb]; exact Nat.zero_le _) hne hto (by simpa using hstream) hlone
+    (fun t ht => by
+      have : t ∈ rem := by cases rem with
+        | nil => cases ht
+        | cons a r => simp only [List.head?_cons, Option.some.injEq] at ht; subst ht; exact List.mem_cons_self ..
+      simpa using (hlone t this).wire_pos) hfeed
+  have hr := witnessK_ready aL s.p.address haL (countTok rem) h3
+  rw [← hearAll_count, ← hring, ← a4] at hr
+  refine ⟨s', hrun, a1, a2, a3, a4, ?_, hr.2⟩
+  unfold TokenRing.readyForRing
+  rw [hr.1]; rfl
+
+/-! Non-vacuity of phase (b): station 5 (fresh, listening since 50 µs) overhears three tokens of station 3 and a GAP
+request to address 4, cut into three chunks in the middle of telegrams. -/
+def remB : List Telegram :=
+  [.token 3 3, .token 3 3, reqTel 4 3, .token 3 3]
+def insB : List (Int × Bytes) :=
+  [(100, [0xDC, 3]), (200, [3, 0xDC, 3, 3, 0x10, 4]), (300, [3, 0x49, 0x50, 0x16, 0xDC, 3, 3])]
+
+example : ∃ s', listenRun [] sL5 [] insB = some (s', []) ∧ s'.st = .listenToken none 0 ∧ s'.online = true ∧ s'.p = sL5.p ∧
+    s'.ring = hearAll 3 remB sL5.ring ∧ s'.ring.readyForRing = true ∧ TokenRing.LasIs s'.ring [3] :=
+  listener_learns_lone_ring [] 3 0 (by decide) insB sL5 remB 50 50 rfl rfl rfl (Int.le_refl _) rfl (by decide) (by decide) rfl
+    (by decide)
+    (by
+      intro t ht
+      simp only [remB, List.mem_cons, List.mem_nil_iff, or_false] at ht
+      rcases ht with rfl | rfl | rfl | rfl
+      · exact .inl rfl
+      · exact .inl rfl
+      · exact .inr ⟨4, by decide, by decide, rfl⟩
+      · exact .inl rfl)
+    (by decide)
+    ⟨by decide, by decide, by decide, by decide, by decide, by decide, trivial⟩
+
+/-! ## Phase (b) on the bus: one poll of a listener that overhears a lone transmitter with arbitrary lag -/
+
+/-- **One poll of a `ListenToken` station on the byte-accurate bus while a lone transmitter is active** (the
+Net-level building block of phases (b)/(c)).  The log (`LoneLog`) is fault-free and non-overlapping and holds only
+transmissions of station `x` (address `aL`): self-addressed tokens and GAP requests to addresses other than the
+listener's.  The listener `j` satisfies the listener condition `LLOk` — arbitrary lag: its buffer holds exactly what
+has arrived of the not yet consumed transmissions, the head of which is incomplete; its ring view is what the
+telegrams `hd` consumed so far made of `r0`; the next character arrives before its token-lost time-out, given that
+the transmitter is never silent for more than `G` (`G + ⌈11 bit⌉ + 2 ≤ Tto`).  Then a poll at any time `now` up to the
+horizon `H ≤ end of the last transmission + G` returns regularly, transmits nothing, and `LLOk` holds again with the
+telegrams consumed in this poll appended to `hd` (so the ring view follows the overheard tokens:
+`listener_learns_lone_ring`, ready after three). -/
+theorem listener_poll_on_bus (cfg : Cfg) (G aL x : Nat) (b : Bus) (H : Int) (j : Nat) (st : NetStation) (r0 : TokenRing)
+    (hd : List Telegram) (hL : LLOk cfg G aL b H j st r0 hd) (hlog : LoneLog cfg aL st.s.p.address x b) (hr : 0 < cfg.rate)
+    (haL : aL < 126) (hjx : j ≠ x) (hjl : j < b.seen.length) (now : Int) (hsn : b.seen.getD j 0 < now) (hnowH : now ≤ H)
+    (hstart : ∀ t ∈ b.txs, t.start ≤ now)
+    (hH : ∀ t, b.txs.getLast? = some t → H ≤ cEnd cfg t + (G : Nat)) :
+    ∃ inc c hd', b.deliver j now = ({ b with seen := b.seen.set j now }, inc) ∧
+      st.s.poll st.apps now (b.transmitting j now) (st.rx ++ inc) = .ok c ∧ c.tx = none ∧ c.s.p = st.s.p ∧
+      LLOk cfg G aL { b with seen := b.seen.set j now } H j (upSt st c) r0 hd' :=
+  llisten_step hL hlog hr haL hjx hjl now hsn hnowH hstart hH
+
+/-! Non-vacuity: station 3 (index 0) sent a self-addressed token at time 0; station 5 (index 1), listening, last polled
+at 20 µs (nothing of the token has arrived yet), is polled at 100 µs. -/
+def tokS : Transmission := { start := 0, sender := 0, bytes := StationGap.tokenBytes 3 3, dropped := false }
+def busS : Bus := { rate := 500000, txs := [tokS], seen := [0, 20] }
+open PV.C13 in
+def sL5' : Station := { (Station.new pR5) with online := true, st := .listenToken none 0, lastBusActivity := some 10 }
+def nsL5' : NetStation := { s := sL5', apps := [], online := true }
+
+open PV.C13 in
+theorem loneLogS : LoneLog cfgR 3 5 0 busS :=
+  ⟨rfl, rfl, List.pairwise_singleton _ _, (fun t ht => by simp only [busS, List.mem_singleton] at ht; subst ht; rfl),
+    (fun t ht => by simp only [busS, List.mem_singleton] at ht; subst ht; rfl),
+    (fun t ht => by simp only [busS, List.mem_singleton] at ht; subst ht; exact .inl rfl)⟩
+
+open PV.C13 in
+theorem llokS : LLOk cfgR 1000 3 busS 1066 1 nsL5' (TokenRing.new 5) [] := by
+  have hinv5 : Inv sL5' [] := by
+    have h := inv_new pR5 [] (by decide) (by decide) (by intro s hs; cases hs)
+    exact ⟨h.addr, h.hsa, h.ring, fun ho => by simp [sL5'] at ho, h.gap, fun a ha => by simp [sL5'] at ha,
+      fun a ha => by simp [sL5'] at ha, h.app, fun a d ha => by simp [sL5'] at ha, h.scripts, by simp [sL5']⟩
+  refine ⟨rfl, rfl, hinv5, rfl, by decide, by decide, rfl, [], [tokS], 10, 0, rfl, (fun o ho => by cases ho), by decide,
+    by decide, ?_, rfl, by decide, rfl, by decide⟩
+  intro t rest hrs
+  cases hrs
+  decide
+
+open PV.C13 in
+example := listener_poll_on_bus cfgR 1000 3 0 busS 1066 1 nsL5' (TokenRing.new 5) [] llokS loneLogS (by decide) (by decide)
+  (by decide) (by decide) 100 (by decide) (by decide)
+  (fun t ht => by simp only [busS, List.mem_singleton] at ht; subst ht; decide)
+  (fun t ht => by simp only [busS, List.getLast?_singleton, Option.some.injEq] at ht; subst ht; decide)
+
+/-! ## Cold start of TWO stations on the bus, up to the poll of the listener's address -/
+
+/-- One poll of the listener / of the claimant while the claimant forms its ring and the listener overhears it with
+arbitrary lag (`Duo`). -/
+theorem cold_start_listener_poll (cfg : Cfg) (hok : cfg.Ok) (G : Nat) (n : Net) (x y : Nat) (stx sty : NetStation) (l : Int)
+    (stage : SStage) (r0 : TokenRing) (hd : List Telegram) (tl : Int) (d : Duo cfg G n x y stx sty l stage r0 hd tl)
+    (now : Int) (htl : tl ≤ now) (hown : n.bus.seen.getD y 0 < now) (hgx : now ≤ n.bus.seen.getD x 0 + (cfg.P : Nat)) :
+    ∃ n' inc c sty' hd', n.poll y now = (n', inc, some (.ok c)) ∧ c.tx = none ∧
+      Duo cfg G n' x y stx sty' l stage r0 hd' now :=
+  duo_listen d hok now htl hown hgx
+
+theorem cold_start_claimant_poll (cfg : Cfg) (hok : cfg.Ok) (hP100 : cfg.P ≤ 100000) (G : Nat) (hG : cfg.slot + 3 * cfg.P ≤ G)
+    (n : Net) (x y : Nat) (stx sty : NetStation) (l : Int) (stage : SStage) (r0 : TokenRing) (hd : List Telegram) (tl : Int)
+    (d : Duo cfg G n x y stx sty l stage r0 hd tl) (B : Int)
+    (hB : max (n.bus.seen.getD x 0) (l + ((stage.wait cfg : Nat) : Int)) +
+      ((stage.rest cfg stx.s.p.address stx.s.p.hsa : Nat) : Int) ≤ B)
+    (now : Int) (htl : tl ≤ now) (hown : n.bus.seen.getD x 0 < now) (hgx : now ≤ n.bus.seen.getD x 0 + (cfg.P : Nat))
+    (hgy : now ≤ n.bus.seen.getD y 0 + (cfg.P : Nat)) :
+    ∃ n' c, n.poll x now = (n', [], some (.ok c)) ∧ now ≤ B ∧ DuoOut cfg G x y stx sty r0 hd B n' c now :=
+  duo_claimant d hok hP100 hG B hB now htl hown hgx hgy
+
+/-- **Cold start of two stations on the bus, phases (a1)–(a3) up to the poll of the listener's address** (C02 "the
+ring forms", two stations).  Two station models on the byte-accurate bus of `Model/Net.lean`, both online in
+`ListenToken` on a bus on which nothing has been transmitted (`CS2`), stamps `lx`, `ly`; station `x`'s token-lost
+time-out runs out first, with the stagger `lx + Tto_x + P + ⌈11 bit⌉ < ly + Tto_y` (two slot times per address by
+`claim_staggered`); both polled at least every `P` µs (`2 + 2P + bits 33 + ⌈11 bit⌉ ≤ Tslot`, `P ≤ 100 ms`); the
+listener's time-out exceeds the longest silence of the claimant, `Tslot + 3P ≤ G`, `G + ⌈11 bit⌉ + 2 ≤ Tto_y`.
+Then (`TwoRun`, `DuoRun`): every poll returns regularly; nobody transmits before `T = lx + Tto_x`; `x` claims at its
+first poll at or after `T` (≤ `T + P`); from then on the listener `y` NEVER transmits — it neither claims nor
+answers — whatever its lag behind the bus, while `x` transmits only its second claim token and GAP requests to
+third addresses, each of its polls no later than `formTime` after the claim, until it sends the GAP request to the
+listener's address (or, if that address is not below HSA, completes its one-station ring).  The listener's ring
+view follows the overheard tokens (`Duo` / `LLOk`: `hearAll`).  What follows the poll of the listener's address —
+its reply, the rest of the sweep, the admission — is not proved. -/
+theorem two_station_cold_start_until_polled (cfg : Cfg) (hok : cfg.Ok) (hP100 : cfg.P ≤ 100000) (G : Nat)
+    (hG : cfg.slot + 3 * cfg.P ≤ G) (x y : Nat) (stx sty : NetStation) (lx ly : Int)
+    (hGy : G + cfg.ce 0 + 2 ≤ sty.s.p.tokenLostTimeout) (hne : stx.s.p.address ≠ sty.s.p.address)
+    (hsync : cfg.b33 < stx.s.p.tokenLostTimeout)
+    (hv : RingView [stx.s.p.address] stx.s.p.address stx.s.ring.claimToken)
+    (hstag : lx + (stx.s.p.tokenLostTimeout : Nat) + (cfg.P : Nat) + ((cfg.ce 0 : Nat) : Int) < ly + (sty.s.p.tokenLostTimeout : Nat))
+    (evs : List (Nat × Int)) (n : Net) (tl : Int) (h : CS2 cfg n x y stx sty lx ly) (hN : n.stations.length = 2)
+    (hsx : n.bus.seen.getD x 0 < lx + (stx.s.p.tokenLostTimeout : Nat)) (hsy : n.bus.seen.getD y 0 ≤ tl)
+    (hs : SchedN cfg.P n tl evs) :
+    TwoRun x y stx.s.p.address sty.s.p.address (lx + (stx.s.p.tokenLostTimeout : Nat))
+      (lx + (stx.s.p.tokenLostTimeout : Nat) + (cfg.P : Nat)) (cfg.formTime stx.s.p.hsa) n evs :=
+  two_cold_start hok hP100 G hG x y stx sty lx ly hGy hne hsync hv hstag evs n tl h hN hsx hsy hs
+
+/-! Non-vacuity: the two listening stations of `netL` (3 and 5, stamps 0 and 50 µs), both polled every 100 µs until
+5950 µs: station 3 claims at 4800 µs, sends its second token and the request to address 4, then polls address 5. -/
+open PV.C13 in
+theorem cs2L : CS2 cfgR netL 0 1 { s := sL3, apps := [], online := true } { s := sL5, apps := [], online := true } 0 50 := by
+  have hinv3 : Inv sL3 [] := by
+    have h := inv_new pR3 [] (by decide) (by decide) (by intro s hs; cases hs)
+    exact ⟨h.addr, h.hsa, h.ring, fun ho => by simp [sL3] at ho, h.gap, fun a ha => by simp [sL3] at ha,
+      fun a ha => by simp [sL3] at ha, h.app, fun a d ha => by simp [sL3] at ha, h.scripts, by simp [sL3]⟩
+  have hinv5 : Inv sL5 [] := by
+    have h := inv_new pR5 [] (by decide) (by decide) (by intro s hs; cases hs)
+    exact ⟨h.addr, h.hsa, h.ring, fun ho => by simp [sL5] at ho, h.gap, fun a ha => by simp [sL5] at ha,
+      fun a ha => by simp [sL5] at ha, h.app, fun a d ha => by simp [sL5] at ha, h.scripts, by simp [sL5]⟩
+  exact ⟨⟨rfl, rfl, rfl, List.Pairwise.nil, (fun o ho => by cases ho), (fun o ho => by cases ho), (fun o ho => by cases ho),
+      (fun o ho => by cases ho), by decide, by decide, rfl, rfl, rfl, hinv3, rfl, rfl, rfl, rfl, rfl⟩, ⟨0, rfl⟩, rfl, rfl, rfl, by decide, by decide, by decide, ⟨rfl, rfl, hinv5, rfl, rfl, ⟨0, rfl⟩, rfl⟩,
+    by decide, rfl⟩
+
+def evsT : List (Nat × Int) := [(0, 100), (1, 150), (0, 200), (1, 250), (0, 300), (1, 350), (0, 400), (1, 450), (0, 500), (1, 550), (0, 600), (1, 650), (0, 700), (1, 750), (0, 800), (1, 850), (0, 900), (1, 950), (0, 1000), (1, 1050), (0, 1100), (1, 1150), (0, 1200), (1, 1250), (0, 1300), (1, 1350), (0, 1400), (1, 1450), (0, 1500), (1, 1550), (0, 1600), (1, 1650), (0, 1700), (1, 1750), (0, 1800), (1, 1850), (0, 1900), (1, 1950), (0, 2000), (1, 2050), (0, 2100), (1, 2150), (0, 2200), (1, 2250), (0, 2300), (1, 2350), (0, 2400), (1, 2450), (0, 2500), (1, 2550), (0, 2600), (1, 2650), (0, 2700), (1, 2750), (0, 2800), (1, 2850), (0, 2900), (1, 2950), (0, 3000), (1, 3050), (0, 3100), (1, 3150), (0, 3200), (1, 3250), (0, 3300), (1, 3350), (0, 3400), (1, 3450), (0, 3500), (1, 3550), (0, 3600), (1, 3650), (0, 3700), (1, 3750), (0, 3800), (1, 3850), (0, 3900), (1, 3950), (0, 4000), (1, 4050), (0, 4100), (1, 4150), (0, 4200), (1, 4250), (0, 4300), (1, 4350), (0, 4400), (1, 4450), (0, 4500), (1, 4550), (0, 4600), (1, 4650), (0, 4700), (1, 4750), (0, 4800), (1, 4850), (0, 4900), (1, 4950), (0, 5000), (1, 5050), (0, 5100), (1, 5150), (0, 5200), (1, 5250), (0, 5300), (1, 5350), (0, 5400), (1, 5450), (0, 5500), (1, 5550), (0, 5600), (1, 5650), (0, 5700), (1, 5750), (0, 5800), (1, 5850), (0, 5900), (1, 5950)]
+
+open PV.C13 in
+example : TwoRun 0 1 3 5 4800 4900 (cfgR.formTime 10) netL evsT :=
+  two_station_cold_start_until_polled cfgR cfgR_ok (by decide) 1000 (by decide) 0 1 { s := sL3, apps := [], online := true }
+    { s := sL5, apps := [], online := true } 0 50 (by decide) (by decide) (by decide) viewOne (by decide) evsT netL 50 cs2L rfl
+    (by decide) (by decide) (schedN_of_times _ _ _ _ (schedNT_of_b 100 2 evsT [0, 50] 50 (by decide)))
+
+/-! ## The first answered GAP request (cold start of two stations, phase (b'): request – pause – reply – reception) -/
+
+/-- **A GAP request to a listening station is answered "not ready" and the reply is received** (C02 / C12 on the
+bus, any lag).  Two station models on the byte-accurate bus.  Start (`HQ`, first alternative `HQ0`): the claimant `x`
+(address `aL`, `ClaimToken`, scanning) has just put the GAP request to the address `aH` of the listener `y` on the
+bus at `r` and awaits the reply; the log is the lone transmitter's; `y` is in `ListenToken`, satisfies the listener
+condition `LLOkX` with the request among the transmissions it has not consumed yet (arbitrary lag), and will not be
+ready when it has heard everything up to the request (`hnr`; ready needs two complete rotations).  Every station is
+polled at least every `P` (`SchedN`; `2 + 2P + bits 33 + ⌈11 bit⌉ ≤ Tslot`), `Tslot + 3P ≤ G`,
+`G + ⌈11 bit⌉ + 2 ≤ Tto_y` (part of `LLOkX`).  Then (`RplRun`) every poll returns regularly; `x` transmits nothing
+and its slot time NEVER runs out (no retry, no false "nobody there"): the listener registers the request at its first
+poll after the last character, waits for the synchronisation pause (33 bit), sends the reply "not ready" exactly in
+that poll and goes back to listening; the claimant receives the reply in whatever pieces it arrives (its slot timer
+restarts with every character), consumes it exactly when it is complete, does not admit the station and goes on with
+its GAP scan (`HQ3`: both stations up to date with the log, whose last entry is the reply) — no later than
+`2 · ⌈66 bit⌉ + bits 33 + 3 P` after the start of the request.  The phases are `hq0_…`, `hq1_…`, `hq2_…` in
+`Lemmas/ColdStartReply.lean`. -/
+theorem gap_request_answered_not_ready (cfg : Cfg) (hok : cfg.Ok) (G : Nat) (hG : cfg.slot + 3 * cfg.P ≤ G) (x y : Nat)
+    (r : Int) (r0 : TokenRing) (T : List Telegram) (aL aH : Nat) (hnr : (hearAll aL T r0).readyForRing = false)
+    (evs : List (Nat × Int)) (n : Net) (stx sty : NetStation) (coll : Nat) (tl : Int)
+    (hq : HQ cfg G n x y stx sty r r0 T coll tl) (hN : n.stations.length = 2) (haL : stx.s.p.address = aL)
+    (haH : sty.s.p.address = aH) (hs : SchedN cfg.P n tl evs) :
+    RplRun cfg x y aL aH (r + 2 * ((cfg.ce 5 : Nat) : Int) + (cfg.b33 : Nat) + 3 * (cfg.P : Nat)) n evs :=
+  reply_run hok G hG x y r r0 T aL aH hnr evs n stx sty coll tl hq hN haL haH hs
+
+/-! Non-vacuity: the request of station 3 to address 5 started at 1000 µs and has been registered by the listener at
+1150 µs (phase `HQ1`); both polled every 100 µs; the reply is sent at 1250 µs and consumed at 1400 µs. -/
+open PV.C13 in
+def sQ3 : Station := { (Station.new pR3) with online := true, st := .claimToken (.scanAwait 5), gap := .doPoll 5, lastBusActivity := some 1132 }
+open PV.C13 in
+def sQ5 : Station := { (Station.new pR5) with online := true, st := .listenToken (some 3) 0, lastBusActivity := some 1150 }
+def nsQ3 : NetStation := { s := sQ3, apps := [], online := true }
+def nsQ5 : NetStation := { s := sQ5, apps := [], online := true }
+def netQ : Net := { bus := { rate := 500000, txs := [rqTx 0 3 5 1000], seen := [1140, 1150] }, stations := [nsQ3, nsQ5] }
+
+open PV.C13 in
+theorem hq1Q : HQ1 cfgR netQ 0 1 nsQ3 nsQ5 1000 1150 0 1150 := by
+  have hinv3 : Inv sQ3 [] := by
+    have h := inv_new pR3 [] (by decide) (by decide) (by intro s hs; cases hs)
+    exact ⟨h.addr, h.hsa, h.ring, fun ho => by simp [sQ3] at ho, fun cur hc => by simp [sQ3] at hc; subst hc; decide,
+      fun a ha => by simp [sQ3] at ha, fun a ha => by simp [sQ3] at ha; subst ha; exact ⟨rfl, by decide⟩, h.app,
+      fun a d ha => by simp [sQ3] at ha, h.scripts, by simp [sQ3]⟩
+  have hinv5 : Inv sQ5 [] := by
+    have h := inv_new pR5 [] (by decide) (by decide) (by intro s hs; cases hs)
+    exact ⟨h.addr, h.hsa, h.ring, fun ho => by simp [sQ5] at ho, h.gap, fun a ha => by simp [sQ5] at ha,
+      fun a ha => by simp [sQ5] at ha, h.app, fun a d ha => by simp [sQ5] at ha, h.scripts, by simp [sQ5]⟩
+  have hce : cEnd cfgR (rqTx 0 3 5 1000) = 1132 := by rw [cEnd_rq]; decide
+  have hpos : 0 < (rqTx 0 3 5 1000).bytes.length := by
+    show 0 < (StationGap.statusRequestBytes 5 3).length; rw [StationGap.statusRequestBytes_length]; decide
+  refine ⟨?_, rfl, rfl, ?_, rfl, by decide, by decide, by decide, by decide, ?_, rfl, ?_, by decide⟩
+  · exact ⟨rfl, rfl, rfl, List.pairwise_singleton _ _,
+      (fun o ho => by simp only [netQ, List.mem_singleton] at ho; subst ho; rfl),
+      (fun o ho => by simp only [netQ, List.mem_singleton] at ho; subst ho; exact hpos),
+      (fun o ho => by simp only [netQ, List.mem_singleton] at ho; subst ho; exact .inl rfl),
+      (fun o ho _ => by simp only [netQ, List.mem_singleton] at ho; subst ho; rw [hce]; decide),
+      by decide, by decide, rfl, rfl, rfl, hinv3, rfl, rfl, rfl, rfl, rfl⟩
+  · exact ⟨rfl, rfl, rfl, List.pairwise_singleton _ _,
+      (fun o ho => by simp only [netQ, List.mem_singleton] at ho; subst ho; rfl),
+      (fun o ho => by simp only [netQ, List.mem_singleton] at ho; subst ho; exact hpos),
+      (fun o ho => by simp only [netQ, List.mem_singleton] at ho; subst ho; right; rw [hce]; decide),
+      (fun o ho hs => by simp only [netQ, List.mem_singleton] at ho; subst ho; cases hs),
+      by decide, by decide, rfl, rfl, rfl, hinv5, rfl, rfl, rfl, rfl, rfl⟩
+  · intro t ht; simp only [netQ, List.mem_singleton] at ht; subst ht; rfl
+  · intro t ht; simp only [netQ, List.mem_singleton] at ht; subst ht; decide
+
+def evsRp : List (Nat × Int) := [(0, 1200), (1, 1250), (0, 1300), (1, 1350), (0, 1400), (1, 1450), (0, 1500), (1, 1550)]
+
+open PV.C13 in
+example : RplRun cfgR 0 1 3 5 1630 netQ evsRp :=
+  gap_request_answered_not_ready cfgR cfgR_ok 1000 (by decide) 0 1 1000 (TokenRing.new 5) [] 3 5 (by decide) evsRp netQ nsQ3 nsQ5
+    0 1150 (.inr (.inl ⟨1150, hq1Q, by decide⟩)) rfl rfl rfl
+    (schedN_of_times _ _ _ _ (schedNT_of_b 100 2 evsRp [1140, 1150] 1150 (by decide)))
 
 end PV.C06
